@@ -285,7 +285,7 @@ def gen_cases(tier, r):
         n_random = 16
         pool = []
     else:
-        n_random = 300
+        n_random = 120
         pool = []
         small = ["sat", "sat_invalid", "unsat", "unknown", "crash", "empty"]
         for n in (1, 2, 3):
@@ -294,7 +294,7 @@ def gen_cases(tier, r):
                 for reps in itertools.product(small, repeat=len(need)):
                     pool.append((ps, dict(zip(need, reps))))
         r.shuffle(pool)
-        pool = pool[:1400]
+        pool = pool[:500]
         for ps, reps in pool:
             cases.append(mk(ps, reps, ee=r.random() < 0.3 and "stuck" not in ps, cache=r.random() < 0.3))
     for _ in range(n_random):
